@@ -134,12 +134,18 @@ def supertree_fails(shapes):
     if (st is not None) != sat:
         fails.append(f"supertree returns {'a tree' if st is not None else 'None'} although a common binary supertree {'exists' if sat else 'does not exist'}")
     elif st is not None:
+        if sorted(l.name for l in st.iter_leaves()) != leaves:
+            fails.append(f"supertree has leaves {sorted(l.name for l in st.iter_leaves())}, the input trees have {leaves}")
         for tr in triples:
             if not displays(st, tr):
                 fails.append(f"supertree does not display {tr} of an input tree")
                 break
     alls = all_supertrees(trees)
     cs = [frozenset(ete_clades(o)) for o in alls]
+    for o in alls:
+        if sorted(l.name for l in o.iter_leaves()) != leaves:
+            fails.append(f"all_supertrees returns a tree with leaves {sorted(l.name for l in o.iter_leaves())}, the input trees have {leaves}")
+            break
     for c in cs:
         if not spec.is_model(c):
             fails.append("all_supertrees returns a tree that does not display an input tree")
@@ -305,6 +311,17 @@ def worker(item):
         if fails:
             out["violations"].append({"kind": "supertree", "text": f"{fails[:2]} for trees {item['shapes']}", "signature": {"kind": "supertree", "shapes": item["shapes"]},
                                       "data": {"what": "supertree", "shapes": item["shapes"]}, "confirmed": True})
+    elif k == "supertree-block":
+        for shapes in item["cases"]:
+            fails = supertree_fails([R_totuple(s_) for s_ in shapes])
+            out["obligations"] += 5
+            if fails:
+                out["violations"].append({"kind": "supertree", "text": f"{fails[:2]} for trees {shapes}", "signature": {"kind": "supertree", "shapes": shapes},
+                                          "data": {"what": "supertree", "shapes": shapes}, "confirmed": True})
+                if len(out["violations"]) > 2:
+                    break
+            else:
+                out["discharged"] += 5
     elif k == "histories":
         n, L = item["n"], item["len"]
         pairs = [(a, b) for a in range(n) for b in range(n)]
@@ -389,13 +406,24 @@ def main(argv=None):
         sh = _rand_shape(rng, leaves)
         shapes = []
         for _k in range(rng.randint(2, 3)):
-            keep = set(rng.sample(leaves, rng.randint(3, n)))
+            keep = set(rng.sample(leaves, rng.randint(2, n)))     # two-leaf trees carry no triple but do carry leaves
             base = sh if rng.random() < 0.8 else _rand_shape(rng, leaves)   # sometimes incompatible
             r = restrict(base, keep)
             if not isinstance(r, str):
                 shapes.append(r)
         if len(shapes) >= 2:
             items.append({"kind": "supertree", "shapes": shapes, "section": 3})
+    # every pair of restrictions (>= 2 leaves each) of every binary tree on 4 leaves, and of two different trees
+    l4 = names5[:4]
+    subsets = [set(c) for k in (2, 3, 4) for c in itertools.combinations(l4, k)]
+    sh4 = list(labelled_shapes(l4))
+    for i, a in enumerate(sh4):
+        for b in (a, sh4[(i + 4) % len(sh4)]):
+            block = []
+            for ka in subsets:
+                for kb in subsets:
+                    block.append([restrict(a, ka), restrict(b, kb)])
+            items.append({"kind": "supertree-block", "cases": block, "section": 3})
     n = 5
     pairs = [(a, b) for a in range(n) for b in range(n)]
     items.append({"kind": "histories", "n": n, "len": 0, "firsts": [pairs[0]], "section": 4})
@@ -419,7 +447,8 @@ def main(argv=None):
                                     DS.DisjointSet.find, DS.DisjointSet.unite, DS.DisjointSet.to_list, DS.DisjointSet.binary, DS.DisjointSet.__len__)
     rep.bounds = {"trees": "every binary tree on 1-5 labelled leaves" + ("" if q else " + 300 seeded on 6 leaves"),
                   "triple sets": "all 8 subsets on 3 leaves, all 4096 subsets of the 12 triples on 4 leaves; seeded subsets on 5-6 leaves",
-                  "supertrees": "2-3 restrictions of a seeded tree on 4-6 leaves (20% taken from a different tree: often incompatible)",
+                  "supertrees": "2-3 restrictions (>= 2 leaves each) of a seeded tree on 4-6 leaves (20% taken from a different tree: often incompatible); every pair of "
+                                "restrictions to >= 2 leaves of each binary tree on 4 leaves and of two different such trees; the result must carry exactly the union of the leaves",
                   "disjoint sets": f"every history of length <= {3 if q else 4} of unite(a,b) on 5 elements (a = b included); every forest parent array on {4 if q else 5} elements x ranks in {{0,1}} x every unite"}
     rep.assumptions = ["tree shapes / triple sets are enumerated; z3 decides membership, distinctness and completeness of the returned SETS of trees, and existence",
                        "the disjoint-set sub-claim has no numeric or set-valued output to hand to a solver: it is decided by exhaustive enumeration (stated)"]
